@@ -8,6 +8,7 @@ import Rtp.Model.AV1PayBytes
 import Rtp.Model.AV1Depack
 import Rtp.Model.AV1DepackIdx
 import Rtp.Model.AV1Packet
+import Rtp.Model.AV1PacketIdx
 import Rtp.Pred.C08
 import Rtp.Pred.C09
 import Rtp.Pred.C13
@@ -86,15 +87,21 @@ def depObsOf : DSt → List (Option Bytes) → List (Pred.C09.DepObs Pred.C09Av1
 
 /-! ### c09.av1packet -/
 
+/-- the index-based models with checked slice expressions (`pktUnmarshalX`, `readFramesC`: a failed
+    check is a panic); `pktUnmarshalX_eq`, `readFramesC_eq` prove them equal to the list models -/
 def pktCallsOf (reuse : Bool) : PktSt → Bytes → List (Option Bytes) → List Pred.C09Av1.PktCall
   | _, _, [] => []
   | st, buf, p :: ps =>
     let st0 := if reuse then st else {}
-    let r := pktUnmarshal st0 p
-    let fr : List Bytes × Bytes :=
-      if r.1.isOk then readFrames buf r.2.z r.2.y (r.2.elems.getD []) else ([], buf)
+    let r := pktUnmarshalX st0 p
+    let fr : Res (List Bytes) × Bytes :=
+      if r.1.isOk then
+        match readFramesC buf r.2.z r.2.y (r.2.elems.getD []) with
+        | some x => (.ok x.1, x.2)
+        | none => (.panic, buf)
+      else (.ok [], buf)
     { res := r.1.coarse, z := r.2.z, y := r.2.y, w := r.2.w.toNat, n := r.2.n,
-      elems := r.2.elems.getD [], frames := .ok fr.1, twinSame := true } ::
+      elems := r.2.elems.getD [], frames := fr.1, twinSame := true } ::
       pktCallsOf reuse r.2 fr.2 ps
 
 end Rtp.Model.AV1
